@@ -8,6 +8,9 @@ W1  FOAM byte code: per format letter the encoder (foamToBuffer), the decoders
 W2  primitive pairs: bufWr/bufRd SFloat/DFloat use paired converters and the
     same byte count; Put/Get HInt/SInt have the same width; the library header
     size equals what libPutHeader writes and libGetHeader reads.
+W3  object-file sections: the section table is in name order; every section
+    collected under a name is stored under the same name; every section that
+    is read is written; sibling writer/reader functions use the same section.
 W4  wide integers: the 'w' case of the writer asserts bufIsSInt, and
     foamSIntReduce is applied on the way into foamToBuffer.
 W5  the structural walkers over FOAM (equality, hashing, copying, printing)
@@ -438,6 +441,77 @@ def w5(rep, f_foam, alphabet):
 
 
 # --------------------------------------------------------------------------
+# W3: sections of the object file (names only; the record codecs of lib.c are data dependent)
+# --------------------------------------------------------------------------
+
+def w3(rep, f_lib):
+    # table order
+    rows = common.table_rows(f_lib.var("libSectInfoTable"))
+    names = f_lib.enum_values("libSectName") if "libSectName" in f_lib.enums else None
+    if names is None:
+        for e in f_lib.raw["enums"]:
+            d = dict(e["e"])
+            if "LIB_Syme" in d:
+                names = d
+    if names is None:
+        raise AnalysisBroken("enumeration of LIB_ section names not found")
+    for i, r in enumerate(rows):
+        tag = common.enum_name(r["c"][0])
+        if names.get(tag) != i:
+            rep.violation("W3", "secttable:%s" % tag, "lib.c:%d (libSectInfoTable)" % r["l"],
+                          "row %d of libSectInfoTable is for %s (=%s): the table is indexed by section name" % (i, tag, names.get(tag)))
+        else:
+            rep.ok("W3", "secttable:%s" % tag, nontrivial=False)
+    written, read = {}, {}
+    for name, fn in f_lib.funcs.items():
+        if "body" not in fn or not fn["file"].endswith("lib.c"):
+            continue
+        adds, puts = [], []
+        for c in calls(fn["body"]):
+            cal = c.get("callee")
+            if cal == "libAddSection" and len(c["c"]) >= 3:
+                adds.append(common.enum_name(c["c"][2]))
+            elif cal == "libPutSection" and len(c["c"]) >= 3:
+                puts.append(common.enum_name(c["c"][2]))
+            elif cal == "libGetSection" and len(c["c"]) >= 3:
+                n2 = common.enum_name(c["c"][2])
+                if n2:
+                    read.setdefault(n2, []).append((name, c["l"]))
+        if adds or puts:
+            key = "section-pair:%s" % name
+            if adds == puts and None not in adds:
+                rep.ok("W3", key, sample={"function": name, "sections": adds} if len(written) < 2 else None)
+            else:
+                rep.violation("W3", key, "lib.c:%d (%s)" % (fn["l"], name),
+                              "%s collects section(s) %s but stores them as %s: the data ends up under another section's name" % (
+                                  name, adds, puts))
+            for a in puts:
+                written.setdefault(a, []).append(name)
+    rep.floor("section writers in lib.c", len(written), 14)
+    for sec, users in sorted(read.items()):
+        key = "section-read:%s" % sec
+        if sec in written:
+            rep.ok("W3", key)
+        else:
+            rep.violation("W3", key, "lib.c:%d (%s)" % (users[0][1], users[0][0]),
+                          "section %s is read but no function writes it" % sec)
+    # reader/writer correspondence by name: libPutSymeX <-> lib1GetSymeX use the same section
+    for wname, fn in f_lib.funcs.items():
+        if not wname.startswith("libPutSyme") or "body" not in fn:
+            continue
+        rname = "lib1GetSyme" + wname[len("libPutSyme"):]
+        if rname not in f_lib.funcs or "body" not in f_lib.funcs[rname]:
+            continue
+        ws = [common.enum_name(c["c"][2]) for c in calls(fn["body"], "libPutSection")]
+        rs = [common.enum_name(c["c"][2]) for c in calls(f_lib.funcs[rname]["body"], "libGetSection")]
+        key = "section-siblings:%s" % wname[len("libPutSyme"):]
+        if ws and rs and set(ws) == set(rs):
+            rep.ok("W3", key)
+        elif ws and rs:
+            rep.violation("W3", key, "lib.c (%s/%s)" % (wname, rname), "%s writes %s, %s reads %s" % (wname, ws, rname, rs))
+
+
+# --------------------------------------------------------------------------
 # W6: type / symbol-meaning codecs of sefo.c
 # --------------------------------------------------------------------------
 
@@ -712,6 +786,8 @@ def run(tier, only=None):
     f_fint = common.extract("fint.c", trees=["skipProg"])
     alphabet = w1(rep, f_foam, widths, f_fint)
     w2(rep, f_buf, f_lib, widths)
+    f_lib_all = common.extract("lib.c", all_trees=True)
+    w3(rep, f_lib_all)
     w4(rep, f_foam, f_lib)
     w5(rep, f_foam, alphabet)
     f_sefo = common.extract("sefo.c", all_trees=True)
